@@ -268,7 +268,7 @@ pub fn run(tier: &str) -> i32 {
 
     // long lists
     let mut ns: Vec<usize> = (0..=300).collect();
-    ns.extend_from_slice(&[1000, 10_000]);
+    ns.extend_from_slice(&[1000, 10_000, 16_384, 16_385, 20_000]);
     if thorough {
         ns.push(100_000);
     }
@@ -277,7 +277,7 @@ pub fn run(tier: &str) -> i32 {
         for n in ns.iter() {
             for c in COMPS {
                 // brotli-11 on big lists is slow: quick keeps it to n <= 1000
-                if !thorough && c == Compression::Brotli && *n > 1000 {
+                if !thorough && c == Compression::Brotli && *n > 1000 && p != 3 {
                     continue;
                 }
                 jobs.push((p, *n, c));
